@@ -1,4 +1,5 @@
 """C18 - postgres Config translation is total, complete and follows the override rules."""
+import re
 from .mcommon import calls_named, in_cycle, branch_condition
 from .roles import adt_of
 from .facts import strip_generics, Operand, Place
@@ -33,7 +34,7 @@ def ordered_fields(an, op, depth=0, seen=None):
     seen = seen if seen is not None else set()
     if depth == 0:
         ordered_fields.altered = []
-    if op.kind == 'const' or depth > 14:
+    if op.kind == 'const' or depth > 40:
         return [], True
     p = op.place
     mine = [f for o_, f in p.fields() if o_ == CFG]
@@ -311,6 +312,19 @@ def run(ctx):
         me = [blk for blk in g.blocks if blk.term.kind == 'call' and not blk.cleanup and 'std::result::Result::map_err' in blk.term.callee_names() and
               any(s[0] == 'call' and s[2] == fs[0].idx for s in sources(an, blk.term.args[0]))]
         oki = len(me) == 1 and 'InvalidUrl' in an.resolve_operand(me[0].term.args[1])
+        if not oki and not me:
+            # the same mapping spelled with another combinator / a closure / a match: the parse result is consumed by exactly one
+            # construct that builds InvalidUrl from the parse error, and by nothing that discards the error
+            users_ = [blk for blk in g.blocks if blk.term.kind == 'call' and not blk.cleanup and blk.idx != fs[0].idx and blk.term.args and
+                      any(s_[0] == 'call' and s_[2] == fs[0].idx for s_ in sources(an, blk.term.args[0]))]
+            discard_ = [x for x in users_ if x.term.callee_names() & {'std::result::Result::ok', 'std::result::Result::unwrap_or', 'std::result::Result::unwrap_or_default', 'std::result::Result::unwrap_or_else'}]
+            built = 0
+            for x in users_:
+                for cblk_, cb_ in closure_args_of(prog, g, sorted(x.term.callee_names())):
+                    if cblk_.idx == x.idx:
+                        built += len([1 for y in cb_.blocks for st_ in y.stmts if st_.kind == 'assign' and st_.rv.kind == 'agg' and st_.rv.j.get('adt', '').endswith('ConfigError') and st_.rv.j.get('variant') == 'InvalidUrl' and not y.cleanup])
+            built += len([1 for y in g.blocks for st_ in y.stmts if st_.kind == 'assign' and st_.rv.kind == 'agg' and st_.rv.j.get('adt', '').endswith('ConfigError') and st_.rv.j.get('variant') == 'InvalidUrl' and not y.cleanup])
+            oki = built == 1 and not discard_
         ctx.ob('R18.3', 'a URL parse error is reported as InvalidUrl', oki, ctx.where(g, fs[0].term.line), '', construct='error:InvalidUrl')
     ctx.ob('R18.3', 'no other configuration error is produced', set(errs) <= {'DbnameMissing', 'DbnameEmpty', 'InvalidUrl'}, ctx.where(g), str(sorted(errs)), construct='error:others')
     # enum conversions
@@ -404,6 +418,14 @@ def run(ctx):
         me = [blk for blk in cp.blocks if blk.term.kind == 'call' and not blk.cleanup and 'std::result::Result::map_err' in blk.term.callee_names() and bd and
               any(s[0] == 'call' and s[2] == bd[0].idx for s in sources(can, blk.term.args[0]))]
         okb = len(bd) == 1 and len(me) == 1 and 'Build' in can.resolve_operand(me[0].term.args[1]) and me[0].term.dest.local == 0
+        if not okb and len(bd) == 1 and not me:
+            # `Ok(builder.build()?)`: the error travels through `?`, i.e. through `From<BuildError> for CreatePoolError<_>` - which must
+            # exist exactly once and map to the Build variant
+            q_ = [blk for blk in cp.blocks if blk.term.kind == 'call' and not blk.cleanup and any(n_.endswith('Try::branch') or n_.endswith('Try>::branch') for n_ in blk.term.callee_names()) and
+                  any(s_[0] == 'call' and s_[2] == bd[0].idx for s_ in sources(can, blk.term.args[0]))]
+            fr = [b_ for b_ in prog.bodies.values() if b_.j.get('impl_trait') == 'std::convert::From' and 'CreatePoolError' in (b_.j.get('impl_self') or '') and re.search(r'From<deadpool::managed::(\w+::)?BuildError>', b_.j.get('impl_trait_ref') or '')]
+            made = sorted({st_.rv.j['variant'] for b_ in fr for blk_ in b_.blocks for st_ in blk_.stmts if st_.kind == 'assign' and st_.rv.kind == 'agg' and 'CreatePoolError' in st_.rv.j.get('adt', '')})
+            okb = len(q_) == 1 and len(fr) == 1 and made == ['Build']
         ctx.ob('R18.5', 'create_pool reports a build error (timeouts without runtime) as CreatePoolError::Build', okb, ctx.where(cp), '', construct='create_pool:build-error')
 
     # ---- R18.6 the build error itself: PoolBuilder::build() refuses every configured timeout without a runtime ---------------
